@@ -132,6 +132,16 @@ class Builder(object):
         return seams.make_credit(val['name'], val, self.env)
 
     # -- blueprints -> graders -----------------------------------------------
+    def predecode(self, bp):
+        """Decode a shared config dictionary now (the author wrote it, with its nested objects,
+        at this point of the history); a later build() of any tenant using it finds it here."""
+        dict_id = bp.get('dict_id')
+        if dict_id is None or dict_id in self.dicts:
+            return
+        cfg = self.decode(bp.get('cfg', {}))
+        self.dicts[dict_id] = cfg
+        self.author.append([bp.get('id', bp['cls']) + ':cfg', cfg, digest(cfg, True)])
+
     def build(self, bp):
         cls = cls_by_name(bp['cls'])
         dict_id = bp.get('dict_id')
